@@ -26,6 +26,20 @@ FILL, HINT = 7, 9                    # style tags of the fill / inline-hint styl
 
 # ------------------------------------------------------------------ helpers
 
+_SEEN = {}
+
+
+def viol(rep, signature, what, replay):
+    """rep.violation, but at most two cases per signature (core keeps 50 violations in all);
+    every occurrence is counted in the distribution."""
+    rep.count("oracle-failure:" + signature)
+    key = (id(rep), signature)
+    _SEEN[key] = _SEEN.get(key, 0) + 1
+    if _SEEN[key] <= 2:
+        return rep.violation(signature, what, replay)
+    return False
+
+
 def limited_hook(ctx):
     """The hooked binary under an address-space limit: a non-terminating wrap loop grows
     memory without bound."""
@@ -108,7 +122,7 @@ def mk_line_case(seg, secs_text, lw, maxl, permille, syms, fill=FILL, hint=HINT)
 def oracle_wrap_line(rep, seg, case, answer):
     """The property evaluated on the implementation's own output (independent of the model)."""
     if answer.startswith("PANIC"):
-        rep.violation("panic:wrap_line", "wrap_line panicked", dict(case, got=answer))
+        viol(rep, "panic:wrap_line", "wrap_line panicked", dict(case, got=answer))
         return
     if not answer.startswith("ok"):
         return
@@ -126,12 +140,15 @@ def oracle_wrap_line(rep, seg, case, answer):
     if symw == 1 and seg.width(rsym) == 1:
         for k, w in enumerate(rw):
             last = k == len(rows) - 1
-            if w > lw and not (last and limited):
-                rep.violation("wrap_line:row-too-wide", f"row {k} has width {w} > line width {lw}",
+            # (repaired code) a cluster too wide to stand next to the wrap symbol gets a row of its own
+            pos = [cw for _, t in rows[k][:-1] for _, cw in seg.one(t) if cw > 0]
+            forced = (not last) and len(pos) == 1 and pos[0] + symw > lw
+            if w > lw and not (last and limited) and not forced:
+                viol(rep, "wrap_line:row-too-wide", f"row {k} has width {w} > line width {lw}",
                               dict(case, got=answer))
                 return
     if eff_max > 0 and len(rows) > eff_max:
-        rep.violation("wrap_line:too-many-rows", f"{len(rows)} rows with max_lines {eff_max}",
+        viol(rep, "wrap_line:too-many-rows", f"{len(rows)} rows with max_lines {eff_max}",
                       dict(case, got=answer))
         return
     # --- lossless: strip the inserted sections, concatenate
@@ -163,7 +180,7 @@ def oracle_wrap_line(rep, seg, case, answer):
         if text.startswith(c) and seg.width(text[len(c):]) == 0:
             ok = True
     if not ok:
-        rep.violation("wrap_line:not-lossless", "joining the row fragments does not give back the line",
+        viol(rep, "wrap_line:not-lossless", "joining the row fragments does not give back the line",
                       dict(case, got=answer, candidates=cands))
         return
     # --- progress: a wrapped row that carries nothing but the wrap symbol
@@ -171,7 +188,7 @@ def oracle_wrap_line(rep, seg, case, answer):
     if junk and text:
         wide = [w for _, w in clusters if w + symw > lw]
         sig = "wrap_line:no-progress:cluster-wider-than-line-width-minus-symbol" if wide else "wrap_line:empty-row"
-        rep.violation(sig, f"row {junk[0]} holds only the wrap symbol (no cluster consumed)",
+        viol(rep, sig, f"row {junk[0]} holds only the wrap symbol (no cluster consumed)",
                       dict(case, got=answer))
 
 
@@ -284,7 +301,7 @@ def part_wrap_line(ctx, rep, hook, mdl, seg):
         rep.corr_case("wrap.line", agree, dict(cases[i], impl=got, model="HANG"))
         rep.case(key=("hang", reqs[i]), nontrivial=True)
         if agree:
-            rep.violation("hang:wrap_line:no-progress", "wrap_line never terminates: " + got[:60],
+            viol(rep, "hang:wrap_line:no-progress", "wrap_line never terminates: " + got[:60],
                           dict(cases[i], got=got, request=reqs[i]))
     for i in send:
         a, m, case = impl[i], model[i], cases[i]
@@ -300,10 +317,704 @@ def part_wrap_line(ctx, rep, hook, mdl, seg):
         if m is not None:
             rep.corr_case("wrap.line", same(a, m), dict(case, impl=a, model=m, request=reqs[i]))
         if a.startswith("DIED"):
-            rep.violation("hang-or-crash:wrap_line", "hook process died or hung in wrap_line: " + a[:80],
+            viol(rep, "hang-or-crash:wrap_line", "hook process died or hung in wrap_line: " + a[:80],
                           dict(case, got=a, request=reqs[i]))
             continue
         oracle_wrap_line(rep, seg, case, a)
+
+
+# ------------------------------------------------------------------ wrap.block
+
+def random_cuts(rng, clusters, p=0.3):
+    """Split a cluster list into sections at random points -> list of cluster lists."""
+    out, cur = [], []
+    for i, c in enumerate(clusters):
+        cur.append(c)
+        if i < len(clusters) - 1 and rng.random() < p:
+            out.append(cur)
+            cur = []
+    if cur:
+        out.append(cur)
+    return out
+
+
+def gen_block_line(rng, zero_ok):
+    pool1 = list("abcxyz =;(){}") + ["é"]
+    pool2 = list("日本語")
+    n = rng.choice([1, 3, 6, 9, 14, 25])
+    cl = []
+    for _ in range(n):
+        r = rng.random()
+        if r < 0.15:
+            cl.append(rng.choice(pool2))
+        elif r < 0.22 and zero_ok:
+            cl.append(ZW)
+        else:
+            cl.append(rng.choice(pool1))
+    return cl
+
+
+def gen_alignment(rng, nm, np_, valid=True):
+    al, m, p = [], 0, 0
+    while m < nm or p < np_:
+        r = rng.random()
+        if m < nm and p < np_ and r < 0.4:
+            al.append((m, p)); m += 1; p += 1
+        elif m < nm and (p >= np_ or r < 0.7):
+            al.append((m, None)); m += 1
+        else:
+            al.append((None, p)); p += 1
+    if not valid and al:
+        k = rng.randrange(len(al))
+        mode = rng.randrange(4)
+        if mode == 0:
+            al[k] = (None, None)
+        elif mode == 1:
+            al.append(al[k])
+        elif mode == 2:
+            del al[k]
+        else:
+            al[k] = (al[k][0] if al[k][0] is None else al[k][0] + 1, al[k][1])
+    return al
+
+
+def part_block(ctx, rep, hook, mdl, seg):
+    rng = ctx.rng
+    reqs, cases = [], []
+    for _ in range(ctx.n(700, 20000)):
+        nm, np_ = rng.randrange(0, 4), rng.randrange(0, 4)
+        zero_ok = rng.random() < 0.35
+        valid = rng.random() < 0.92
+        al = gen_alignment(rng, nm, np_, valid)
+        lw = (rng.choice([2, 3, 4, 5, 6, 8, 11]), rng.choice([2, 3, 4, 5, 6, 8, 11]))
+        maxl = rng.choice(MAXLINES[1:] + [3, 0] if rng.random() < 0.9 else [0])
+        sides, texts = [], []
+        for side, n in ((0, nm), (1, np_)):
+            lines = []
+            for _ in range(n):
+                cl = gen_block_line(rng, zero_ok)
+                text = "".join(cl) + "\n"
+                syn = ["".join(x) for x in random_cuts(rng, cl, 0.35)]
+                dif = ["".join(x) for x in random_cuts(rng, cl, 0.15)]
+                # the newline: a section of its own, or glued to the last section
+                if rng.random() < 0.5:
+                    syn.append("\n")
+                else:
+                    syn[-1] += "\n"
+                dif[-1] += "\n"
+                lines.append((text, syn, dif))
+            sides.append(lines)
+        allsecs = [t for lines in sides for (_, syn, dif) in lines for t in syn + dif]
+        seg.many(allsecs)
+        fields = [f_cfg(seg, maxl, rng.choice([0, 370, 1000]), DEFAULT_SYMS), str(lw[0]), str(lw[1]), str(len(al))]
+        for m, p in al:
+            fields += ["-" if m is None else str(m), "-" if p is None else str(p)]
+        for side, lines in enumerate(sides):
+            fields.append(str(len(lines)))
+            for text, syn, dif in lines:
+                width = sum(w for t in dif for _, w in seg.one(t))
+                must = 1 if width > lw[side] else 0
+                fields.append(str(must))
+                fields.append(f_sections([(i + 1, seg.one(t)) for i, t in enumerate(syn)]))
+                fields.append(f_sections([(i + 1, seg.one(t)) for i, t in enumerate(dif)]))
+        reqs.append("wrap.block " + " ".join(fields))
+        cases.append(dict(op="wrap.block", alignment=al, lw=lw, max_lines=maxl, valid_alignment=valid,
+                          minus=[(s_, d_) for _, s_, d_ in sides[0]], plus=[(s_, d_) for _, s_, d_ in sides[1]]))
+    model = mdl.ask(reqs, timeout=600) if mdl else [None] * len(reqs)
+    send = [i for i, m in enumerate(model) if m != "HANG"]
+    rep.count("wrap.block:model-predicts-nontermination", len(reqs) - len(send))
+    impl = dict(zip(send, hook.ask([reqs[i] for i in send], timeout=ctx.n(60, 600))))
+    for i in send:
+        a, m, case = impl[i], model[i], cases[i]
+        if a.startswith("ERR"):
+            rep.count("wrap.block:skipped-domain")
+            continue
+        rep.case(key=reqs[i], nontrivial=(" R" in a and a.count(" R") > 4 * 1) or a.startswith("PANIC"),
+                 sample=None)
+        rep.count("wrap.block:" + ("panic" if a.startswith("PANIC") else "ok"))
+        if m is not None:
+            rep.corr_case("wrap.block", same(a, m), dict(case, impl=a, model=m, request=reqs[i]))
+        if a.startswith("DIED"):
+            viol(rep, "hang-or-crash:wrap_block", "hook died or hung in wrap_minusplus_block",
+                          dict(case, got=a, request=reqs[i]))
+            continue
+        if a.startswith("PANIC"):
+            msg = unhx(a.split()[1]).decode("utf-8", "replace")
+            if case["valid_alignment"]:
+                if "syntax and diff wrapping differs" in msg:
+                    viol(rep, "panic:wrap_block:syntax-and-diff-wrapping-differs:zero-width-cluster"
+                                  if any(ZW in t for l_ in case["minus"] + case["plus"] for t in l_[0])
+                                  else "panic:wrap_block:syntax-and-diff-wrapping-differs",
+                                  "wrap_minusplus_block panicked on a well-formed alignment: " + msg[:80],
+                                  dict(case, got=msg, request=reqs[i]))
+                else:
+                    viol(rep, "panic:wrap_block", "wrap_minusplus_block panicked on a well-formed alignment: " + msg[:80],
+                                  dict(case, got=msg, request=reqs[i]))
+            continue
+        oracle_block(rep, case, a, reqs[i])
+
+
+def oracle_block(rep, case, answer, req):
+    f = answer.split()
+    n = int(f[2])
+    al = [(None if f[3 + 2 * k] == "-" else int(f[3 + 2 * k]), None if f[4 + 2 * k] == "-" else int(f[4 + 2 * k]))
+          for k in range(n)]
+    rest = f[3 + 2 * n:]
+    sl, sr = rest[1][1:], rest[3][1:]
+    k = rest.index("SYNL")
+    parts, cur = {}, None
+    for tok in rest[k:]:
+        if tok in ("SYNL", "DIFL", "SYNR", "DIFR"):
+            cur = tok
+            parts[cur] = []
+        else:
+            parts[cur].append(tok)
+    rows = {kk: parse_rows(v) for kk, v in parts.items()}
+    left = [m for m, _ in al if m is not None]
+    right = [p for _, p in al if p is not None]
+    bad = None
+    if left != list(range(len(sl))) or right != list(range(len(sr))):
+        bad = "row indices of a side are not 0..n-1 in order"
+    elif len(rows["SYNL"]) != len(sl) or len(rows["SYNR"]) != len(sr):
+        bad = "number of rows and number of states differ"
+    elif case["valid_alignment"]:
+        nm = len([1 for m, _ in case["alignment"] if m is not None])
+        np_ = len([1 for _, p in case["alignment"] if p is not None])
+        if sl.count("1") != nm or sr.count("1") != np_:
+            bad = "a line does not appear exactly once as a real-line row"
+        else:
+            startl = [i for i, ch in enumerate(sl) if ch == "1"]
+            startr = [i for i, ch in enumerate(sr) if ch == "1"]
+            for m, p in case["alignment"]:
+                if m is not None and p is not None and (startl[m], startr[p]) not in al:
+                    bad = f"paired lines {m}/{p} do not start on the same row"
+    if bad:
+        viol(rep, "wrap_block:alignment", bad, dict(case, got=answer, request=req))
+        return
+    # the syntax rows and the diff rows must carry the same text (they are superimposed)
+    for a_, b_ in (("SYNL", "DIFL"), ("SYNR", "DIFR")):
+        for k, (r1, r2) in enumerate(zip(rows[a_], rows[b_])):
+            t1, t2 = "".join(t for _, t in r1), "".join(t for _, t in r2)
+            if t1 != t2:
+                zwc = ZW in t1 or ZW in t2
+                viol(rep, "wrap_block:syntax-and-diff-rows-differ" + (":zero-width-cluster" if zwc else ""),
+                              f"row {k}: syntax sections read {t1!r}, diff sections read {t2!r} (superimposing panics)",
+                              dict(case, got=answer, request=req))
+                return
+
+
+# ------------------------------------------------------------------ truncate / measure / panels
+
+def items_of(hook, strings):
+    res = hook.ask(["wrap.ansi_items " + hx(s_) for s_ in strings], timeout=120)
+    out = []
+    for r in res:
+        assert r.startswith("ok"), r
+        out.append(r[3:].strip())
+    return out
+
+
+def f_items(it):
+    toks = it.split()
+    n = sum(1 for t in toks if t in ("A", "T"))
+    # a hex field never equals "A"/"T" (it starts with x), so counting is safe
+    return f"{n} {it}".strip()
+
+
+def gen_painted(rng):
+    pool1 = list("abcxyz ") + ["é"]
+    pool2 = list("日本語")
+    sgr = ["\x1b[31m", "\x1b[0m", "\x1b[1;38;5;100m", "\x1b[7m", "\x1b]8;;http://x\x1b\\", "\x1b[0K"]
+    s_ = ""
+    for _ in range(rng.choice([1, 2, 3, 5, 8])):
+        if rng.random() < 0.6:
+            s_ += rng.choice(sgr)
+        for _ in range(rng.choice([0, 1, 2, 4, 7])):
+            r = rng.random()
+            s_ += rng.choice(pool2) if r < 0.25 else (ZW if r < 0.3 else rng.choice(pool1))
+    if rng.random() < 0.5:
+        s_ += "\x1b[0m"
+    return s_
+
+
+def vis_width(seg, items_field):
+    toks = items_field.split()
+    w, i = 0, 0
+    while i < len(toks):
+        if toks[i] == "A":
+            i += 2
+        else:
+            k = int(toks[i + 1])
+            for j in range(k):
+                w += int(toks[i + 3 + 2 * j])
+            i += 2 + 2 * k
+    return w
+
+
+def cut_class(items_field, dw, tail_w):
+    """Independent look at where the cut falls: 'wide-cluster-at-cut-followed-by-text' when a
+    double-width cluster does not fit with one column left and a later text run exists."""
+    toks = items_field.split()
+    runs, i = [], 0
+    while i < len(toks):
+        if toks[i] == "A":
+            i += 2
+        else:
+            k = int(toks[i + 1])
+            runs.append([int(toks[i + 3 + 2 * j]) for j in range(k)])
+            i += 2 + 2 * k
+    used = min(tail_w, dw)
+    for ri, run in enumerate(runs):
+        for w in run:
+            if used + w > dw:
+                later = any(x > 0 for r2 in runs[ri + 1:] for x in r2)
+                if w == 2 and used == dw - 1 and later:
+                    return "wide-cluster-at-cut-followed-by-text"
+                return "plain"
+            used += w
+    return "plain"
+
+
+def part_truncate(ctx, rep, hook, mdl, seg):
+    rng = ctx.rng
+    tails = ["", "→", "\x1b[7m→\x1b[0m", "..", "日", "…"]
+    strings = [gen_painted(rng) for _ in range(ctx.n(600, 20000))]
+    its = items_of(hook, strings + tails)
+    tail_items = dict(zip(tails, its[len(strings):]))
+    reqs, cases = [], []
+    for s_, it in zip(strings, its):
+        w = vis_width(seg, it)
+        dw = rng.choice([0, 1, 2, max(w - 1, 0), max(w - 2, 0), w, w + 1, max(w // 2, 0), 3, 5])
+        fill = 1 if rng.random() < 0.8 else 0
+        tail = rng.choice(tails) if fill else ""
+        reqs.append(f"wrap.truncate {dw} {fill} {f_items(it)} {f_items(tail_items[tail])}")
+        cases.append(dict(op="wrap.truncate", s=s_, dw=dw, fill=fill, tail=tail, width=w,
+                          cls=cut_class(it, dw, vis_width(seg, tail_items[tail]))))
+        reqs.append(f"wrap.measure {f_items(it)}")
+        cases.append(dict(op="wrap.measure", s=s_, width=w))
+        if rng.random() < 0.5:
+            side = rng.choice("lr")
+            tl = "\x1b[7m→\x1b[0m"
+            reqs.append(f"wrap.pad_panel {side} {dw} {f_items(it)} {f_items(tail_items[tl])}")
+            cases.append(dict(op="wrap.pad_panel", s=s_, dw=dw, side=side, tail=tl, width=w,
+                              cls=cut_class(it, dw, 1)))
+    impl = hook.ask(reqs, timeout=ctx.n(60, 600))
+    model = mdl.ask(reqs, timeout=600) if mdl else [None] * len(reqs)
+    outs = [unhx(a.split()[1]).decode("utf-8", "replace") for a in impl if a.startswith("ok x")]
+    out_items = dict(zip(outs, items_of(hook, outs)))
+    for req, case, a, m in zip(reqs, cases, impl, model):
+        if a.startswith("ERR"):
+            rep.count(case["op"] + ":skipped-domain")
+            continue
+        rep.case(key=req, nontrivial=case["op"] != "wrap.measure" and case["width"] > case.get("dw", 0))
+        rep.count(case["op"])
+        if m is not None:
+            rep.corr_case(case["op"], same(a, m), dict(case, impl=a, model=m, request=req))
+        if a.startswith("PANIC") or a.startswith("DIED"):
+            viol(rep, "panic:" + case["op"], "panicked: " + a[:60], dict(case, got=a, request=req))
+            continue
+        if case["op"] == "wrap.measure":
+            if int(a.split()[1]) != case["width"]:
+                viol(rep, "measure_text_width:not-sum-of-cluster-widths", "measure differs from the independent sum",
+                              dict(case, got=a))
+            continue
+        out = unhx(a.split()[1]).decode("utf-8", "replace")
+        ow = vis_width(seg, out_items[out])
+        dw = case["dw"]
+        esc_in = re.findall(r"\x1b(?:\[[0-9;]*[A-Za-z]|\][^\x1b]*\x1b\\)", case["s"])
+        esc_out = re.findall(r"\x1b(?:\[[0-9;]*[A-Za-z]|\][^\x1b]*\x1b\\)", out)
+        if case["op"] == "wrap.truncate":
+            cut = case["width"] > dw
+            if not cut and out != case["s"]:
+                viol(rep, "truncate_str:changes-fitting-string", "a string that fits was changed", dict(case, got=out))
+            elif cut and (ow > dw or (case["fill"] and ow != dw and seg.width(re.sub(r"\x1b\[[0-9;]*m", "", case["tail"])) <= dw)):
+                viol(rep, ("truncate_str:wider-than-requested:" + case["cls"]) if ow > dw else "truncate_str:narrower-than-requested",
+                              f"result is {ow} columns wide, requested {dw}", dict(case, got=out))
+            elif cut and esc_out[:len(esc_in)] != esc_in:
+                viol(rep, "truncate_str:drops-escape-sequence", "an escape sequence of the input is missing",
+                              dict(case, got=out))
+        else:
+            if case["side"] == "l" and ow != dw:
+                viol(rep, "pad_panel:left-panel-not-exact:" + (("truncated:" + case["cls"]) if case["width"] > dw else "padded"),
+                              f"left panel is {ow} columns wide, panel width {dw}", dict(case, got=out))
+            elif case["side"] == "r" and ow > max(dw, 0) and case["width"] > dw:
+                viol(rep, "pad_panel:right-panel-too-wide:" + case["cls"], f"right panel is {ow} columns wide, panel width {dw}",
+                              dict(case, got=out))
+
+
+def part_panels(ctx, rep, hook, mdl):
+    reqs, cases = [], []
+    for w in list(range(0, ctx.n(40, 200))) + [250, 251, 1000, 1001]:
+        for meth in (None, "ansi", "spaces"):
+            args = ["--side-by-side", "--width", str(w)] + (["--line-fill-method", meth] if meth else [])
+            reqs.append("wrap.panels " + " ".join(hx(a) for a in args))
+            cases.append(dict(op="wrap.panels", width=w, method=meth))
+    impl = hook.ask(reqs, timeout=300)
+    model = mdl.ask(reqs, timeout=120) if mdl else [None] * len(reqs)
+    for req, case, a, m in zip(reqs, cases, impl, model):
+        rep.case(key=req, nontrivial=case["width"] % 2 == 1)
+        if a.startswith("ok") and m is not None:
+            rep.corr_case("wrap.panels", a.split()[:3] == m.split()[:3], dict(case, impl=a, model=m))
+        if a.startswith("ok"):
+            l_, r_ = int(a.split()[1]), int(a.split()[2])
+            if l_ != case["width"] // 2 or l_ + r_ > case["width"] or r_ < l_:
+                viol(rep, "panels:widths", f"panel widths {l_}+{r_} for --width {case['width']}", dict(case, got=a))
+
+
+# ------------------------------------------------------------------ the real binary, --side-by-side
+
+DELIM = "⡇"
+ANSI_RE = re.compile(r"\x1b(?:\[[0-9;:?]*[ -/]*[@-~]|\][^\x07\x1b]*(?:\x07|\x1b\\))")
+
+
+def gen_text_line(rng, kind):
+    words = ["let", "x", "=", "foo(bar)", "return", "value;", "if", "a<b", "{", "}", "日本語", "テキスト", "naïve",
+             "é́", "1234567890", "the", "quick", "brown", "fox", "😀", "wide字", "ｆｕｌｌ"]
+    n = rng.choice([0, 1, 2, 4, 7, 12, 20])
+    parts = []
+    for _ in range(n):
+        w = rng.choice(words)
+        if kind == "ascii":
+            w = re.sub(r"[^\x00-\x7f]", "z", w)
+        parts.append(w)
+    line = " ".join(parts)
+    if rng.random() < 0.25:
+        line = rng.choice(["  ", "    ", "\t"]) + line
+    if kind == "zw" and line and rng.random() < 0.7:
+        k = rng.randrange(len(line))
+        line = line[:k] + ZW + line[k:]
+    if rng.random() < 0.1:
+        line = line.replace(" ", "\t", 1)
+    return line
+
+
+def gen_diff(rng):
+    """A two-way unified diff with one or two hunks. Returns (diff text, hunks) where a hunk is
+    (old start, new start, [(' '|'-'|'+', text)])."""
+    ext = rng.choice(["txt", "txt", "rs", "py", "md"])
+    kind = rng.choice(["ascii", "mixed", "mixed", "zw"])
+    hunks, out = [], [f"diff --git a/f.{ext} b/f.{ext}", "index 1111111..2222222 100644", f"--- a/f.{ext}", f"+++ b/f.{ext}"]
+    o, n = rng.randrange(1, 40), None
+    n = o + rng.randrange(0, 3)
+    for _ in range(rng.choice([1, 1, 2])):
+        body = []
+        for _ in range(rng.randrange(1, 5)):
+            r = rng.random()
+            if r < 0.3:
+                body.append((" ", gen_text_line(rng, kind)))
+            elif r < 0.65:
+                base = gen_text_line(rng, kind)
+                body.append(("-", base))
+                if rng.random() < 0.7:
+                    # a similar line, so that delta pairs the two
+                    mod = base.replace("x", "y", 1) if "x" in base else base + " changed"
+                    body.append(("+", mod))
+            else:
+                for _ in range(rng.randrange(1, 3)):
+                    body.append((rng.choice("-+"), gen_text_line(rng, kind)))
+        # a valid diff has its '-' run before the '+' run inside a change block; reorder blocks
+        norm, blk = [], []
+        for tag, text in body + [(" ", None)]:
+            if tag == " ":
+                norm += [x for x in blk if x[0] == "-"] + [x for x in blk if x[0] == "+"]
+                blk = []
+                if text is not None:
+                    norm.append((tag, text))
+            else:
+                blk.append((tag, text))
+        oc = sum(1 for t, _ in norm if t in " -")
+        nc = sum(1 for t, _ in norm if t in " +")
+        out.append(f"@@ -{o},{oc} +{n},{nc} @@")
+        out += [t + x for t, x in norm]
+        hunks.append((o, n, norm))
+        o += oc + rng.randrange(3, 9)
+        n += nc + rng.randrange(3, 9)
+    return "\n".join(out) + "\n", hunks, ext, kind
+
+
+def split_panels(seg, row, width):
+    """Clusters of a stripped output row -> (left text, right text, total width, exact boundary?)."""
+    cl = seg.one(row)
+    half = width // 2
+    col, left, right, exact = 0, [], [], False
+    for g, w in cl:
+        if col < half:
+            left.append(g)
+        else:
+            if col == half and not right:
+                exact = True
+            right.append(g)
+        col += w
+    if col <= half:
+        exact = col == half or not right
+    return "".join(left), "".join(right), col, exact
+
+
+def run_sbs_case(ctx, case):
+    args = ["--no-gitconfig", "--side-by-side", "--width", str(case["width"]),
+            "--line-numbers-left-format", "{nm:>4}" + DELIM, "--line-numbers-right-format", "{np:>4}" + DELIM,
+            "--wrap-max-lines", case["wrap_max_lines"]] + case["extra"]
+    env = {}
+    try:
+        rc, out, err = ctx.run_delta(args, case["diff"].encode("utf-8"), env=env, timeout=case.get("timeout", 10))
+    except Exception as e:   # pragma: no cover
+        return ("error", str(e), "")
+    return rc, out.decode("utf-8", "replace"), err.decode("utf-8", "replace")
+
+
+def limited_run_delta(ctx, args, stdin_bytes, timeout):
+    """run_delta under an address-space limit (the non-terminating wrap loop eats memory)."""
+    e = dict(os.environ)
+    for k in ("GIT_CONFIG_PARAMETERS", "DELTA_FEATURES", "DELTA_PAGER", "PAGER", "BAT_PAGER", "BAT_THEME",
+              "COLORTERM", "DELTA_VERIF_HOOK", "LESS", "GIT_PREFIX"):
+        e.pop(k, None)
+    home = os.path.join(os.path.dirname(os.path.dirname(ctx.delta.rstrip("/"))), "..", "home")
+    from ..core import BUILD
+    e["HOME"] = os.path.join(BUILD, "home")
+    os.makedirs(e["HOME"], exist_ok=True)
+    e["GIT_CONFIG_NOSYSTEM"] = "1"
+    e["DELTA_VERIF_FORCE_GUESS"] = "none"
+    try:
+        p = subprocess.run(["sh", "-c", 'ulimit -v 2000000; exec "$0" "$@"', ctx.delta] + list(args), input=stdin_bytes,
+                           stdout=subprocess.PIPE, stderr=subprocess.PIPE, env=e, timeout=timeout)
+        return p.returncode, p.stdout, p.stderr
+    except subprocess.TimeoutExpired as ex:
+        return "timeout", ex.stdout or b"", ex.stderr or b""
+
+
+WITNESS_HANG = ("diff --git a/f.txt b/f.txt\n--- a/f.txt\n+++ b/f.txt\n@@ -1 +1 @@\n-日本語\n+日本\n")
+WITNESS_ZW = ("diff --git a/f.rs b/f.rs\n--- a/f.rs\n+++ b/f.rs\n@@ -1 +1 @@\n-fn main() ​x x } value;\n+fn main() ​x x } value; y\n")
+WITNESS_TRUNC = ("diff --git a/f.txt b/f.txt\n--- a/f.txt\n+++ b/f.txt\n@@ -1,2 +1,2 @@\n-abcd日本語 x = 1\n+abcd日本語 x = 2\n ctx\n")
+
+
+def hunks_of(diff):
+    hunks, cur = [], None
+    for ln in diff.split("\n"):
+        m = re.match(r"^@@ -(\d+)(?:,\d+)? \+(\d+)(?:,\d+)? @@", ln)
+        if m:
+            cur = (int(m.group(1)), int(m.group(2)), [])
+            hunks.append(cur)
+        elif cur is not None and ln[:1] in (" ", "-", "+"):
+            cur[2].append((ln[0], ln[1:]))
+    return hunks
+
+
+def part_binary(ctx, rep, seg):
+    rng = ctx.rng
+    cases = []
+
+    def add(diff, ext, kind, width, wml, extra=(), syms=DEFAULT_SYMS, markers=False, gen="random"):
+        cases.append(dict(op="delta --side-by-side", diff=diff, hunks=hunks_of(diff), ext=ext, kind=kind, width=width,
+                          wrap_max_lines=wml, extra=list(extra), syms=syms, markers=markers, gen=gen))
+    # fixed witnesses of the defects known on the pinned tree (each run confirms them on the real binary)
+    add(WITNESS_HANG, "txt", "mixed", 14, "unlimited", gen="witness-hang")
+    add(WITNESS_HANG, "txt", "mixed", 14, "3", gen="witness-junk-rows")
+    for w in range(24, 44):
+        add(WITNESS_ZW, "rs", "zw", w, "2", gen="witness-zero-width")
+    for w in (24, 25, 26, 27, 28):
+        add(WITNESS_TRUNC, "txt", "mixed", w, "0", gen="witness-truncate")
+    for _ in range(ctx.n(260, 10000)):
+        diff, hunks, ext, kind = gen_diff(rng)
+        markers = rng.random() < 0.2
+        lo = 14 + (2 if markers else 0)            # text width 2 on both sides
+        r = rng.random()
+        width = rng.randrange(lo, lo + 10) if r < 0.3 else rng.randrange(lo + 10, 140)
+        wml = rng.choice(["0", "1", "2", "2", "5", "unlimited", "unlimited"])
+        extra = []
+        if rng.random() < 0.4:
+            extra += ["--line-fill-method", rng.choice(["spaces", "ansi"])]
+        if rng.random() < 0.25:
+            extra += ["--wrap-right-percent", rng.choice(["1", "20", "50", "99"])]
+        syms = DEFAULT_SYMS
+        if rng.random() < 0.15:
+            syms = ("+", "<", ">")
+            extra += ["--wrap-left-symbol", "+", "--wrap-right-symbol", "<", "--wrap-right-prefix-symbol", ">"]
+        if markers:
+            extra += ["--keep-plus-minus-markers"]
+        if rng.random() < 0.15:
+            extra += ["--tabs", rng.choice(["2", "4"])]
+        add(diff, ext, kind, width, wml, extra, syms, markers)
+
+    def one(case):
+        args = ["--no-gitconfig", "--side-by-side", "--width", str(case["width"]),
+                "--line-numbers-left-format", "{nm:>4}" + DELIM, "--line-numbers-right-format", "{np:>4}" + DELIM,
+                "--wrap-max-lines", case["wrap_max_lines"]] + case["extra"]
+        case["args"] = args
+        return limited_run_delta(ctx, args, case["diff"].encode("utf-8"), ctx.n(6, 15))
+    results = parallel_map(one, cases)
+    # segment every output row in one batch
+    decoded = []
+    for case, (rc, out, err) in zip(cases, results):
+        rows = []
+        if rc == 0:
+            text = ANSI_RE.sub("", out.decode("utf-8", "replace"))
+            rows = [r for r in text.split("\n") if DELIM in r]
+        decoded.append(rows)
+    seg.many([r for rows in decoded for r in rows])
+    for case, (rc, out, err), rows in zip(cases, results, decoded):
+        oracle_binary(ctx, rep, seg, case, rc, err.decode("utf-8", "replace"), rows)
+
+
+def tab_width(case):
+    if "--tabs" in case["extra"]:
+        return int(case["extra"][case["extra"].index("--tabs") + 1])
+    return 8
+
+
+def side_text_widths(case):
+    """Text columns of the left and the right panel (panel width minus gutter minus marker)."""
+    width = case["width"]
+    half = width // 2
+    a = case["extra"]
+    spaces = "--line-fill-method" in a and a[a.index("--line-fill-method") + 1] == "spaces"
+    right = half + (1 if (width % 2 == 1 and not spaces) else 0)
+    gut = 5 + (1 if case["markers"] else 0)
+    return half - gut, right - gut
+
+
+def oracle_binary(ctx, rep, seg, case, rc, err, rows):
+    width = case["width"]
+    half = width // 2
+    lwl, lwr = side_text_widths(case)
+    replay = dict(op=case["op"], args=case["args"], diff=case["diff"], width=width)
+    body_l = [x for _, _, body in case["hunks"] for t, x in body if t in " -"]
+    body_r = [x for _, _, body in case["hunks"] for t, x in body if t in " +"]
+    tw = tab_width(case)
+
+    def too_wide(text, lw):
+        return [w for _, w in seg.one(text.replace("\t", " " * tw)) if w + 1 > lw]
+    # a cluster that does not fit next to the wrap symbol, on a side that wraps at all
+    wide_cluster = (lwl >= 2 and any(too_wide(t, lwl) for t in body_l)) or (lwr >= 2 and any(too_wide(t, lwr) for t in body_r))
+    has_wide = any(w >= 2 for t in body_l + body_r for _, w in seg.one(t))
+    rep.count("binary:ext=" + case["ext"])
+    lw = min(lwl, lwr)
+    rep.count("binary:text-width=" + ("2" if lw <= 2 else "3-9" if lw < 10 else "10-29" if lw < 30 else "30+"))
+    rep.count("binary:wrap-max-lines=" + case["wrap_max_lines"])
+    key = (case["diff"], tuple(case["args"]))
+    if rc == "timeout":
+        rep.case(key=key, nontrivial=True)
+        sig = "hang:side-by-side:cluster-wider-than-text-width-minus-symbol" if wide_cluster else "hang:side-by-side"
+        viol(rep, sig, "delta --side-by-side did not terminate", replay)
+        return
+    if rc != 0:
+        rep.case(key=key, nontrivial=True)
+        m = re.search(r"panicked at ([^\n]*)\n([^\n]*)", err)
+        where = (m.group(1) + " " + m.group(2)) if m else err[-200:]
+        zwc = ZW in case["diff"]
+        if "String mismatch encountered while superimposing" in err or "syntax and diff wrapping differs" in err:
+            sig = "panic:side-by-side:syntax-and-diff-wrapping-disagree" + (":zero-width-cluster" if zwc else "")
+        elif "memory allocation" in err and wide_cluster:
+            sig = "hang:side-by-side:cluster-wider-than-text-width-minus-symbol"
+        else:
+            sig = "crash:side-by-side:rc=%s" % rc
+        viol(rep, sig, "delta --side-by-side failed: " + where[:160], replay)
+        return
+    lsym, rsym, psym = case["syms"]
+    eff_max = 0 if case["wrap_max_lines"] == "unlimited" else int(case["wrap_max_lines"]) + 1
+    # ---- geometry, row by row
+    rowinfo = []
+    for r in rows:
+        left, right, total, exact = split_panels(seg, r, width)
+        ml = re.match(r"^([ 0-9]{4})" + DELIM, left)
+        mr = re.match(r"^([ 0-9]{4})" + DELIM, right)
+        cls = ":truncated-row-with-wide-cluster" if ("→" in r and has_wide) else ""
+        if total > width:
+            viol(rep, "sbs:row-wider-than-width" + cls, f"row is {total} columns wide, --width {width}", dict(replay, row=r))
+            rep.case(key=key, nontrivial=True)
+            return
+        if not exact or not ml or not mr:
+            viol(rep, "sbs:right-panel-column" + cls, f"right panel does not start at column {half}", dict(replay, row=r))
+            rep.case(key=key, nontrivial=True)
+            return
+        rowinfo.append((ml.group(1).strip(), left[ml.end():], mr.group(1).strip(), right[mr.end():]))
+    # ---- content: lines per side, in order, fragments re-joined
+    exp_left = [(t, x) for _, _, body in case["hunks"] for t, x in body if t in " -"]
+    exp_right = [(t, x) for _, _, body in case["hunks"] for t, x in body if t in " +"]
+    exp_nums_l = [o + k for o, _, body in case["hunks"] for k in range(sum(1 for t, _ in body if t in " -"))]
+    exp_nums_r = [n + k for _, n, body in case["hunks"] for k in range(sum(1 for t, _ in body if t in " +"))]
+    nontrivial = False
+    for side, exp, nums, lw in ((0, exp_left, exp_nums_l, lwl), (1, exp_right, exp_nums_r, lwr)):
+        emax = 1 if lw <= 1 else eff_max
+        lines = []
+        for info in rowinfo:
+            num, text = (info[0], info[1]) if side == 0 else (info[2], info[3])
+            if case["markers"]:
+                text = text[1:] if text else text
+            if num:
+                lines.append([int(num), [text]])
+            elif lines and lines[-1][1][-1].rstrip(" ").endswith((lsym, rsym)):
+                # a row that follows a wrap symbol on this side continues that line
+                lines[-1][1].append(text)
+            # else: the empty half of a row whose other side holds a line
+        if [n for n, _ in lines] != nums:
+            viol(rep, "sbs:lines-per-side", "side %s shows lines %s, the hunks have %s" %
+                 ("LR"[side], [n for n, _ in lines][:12], nums[:12]), replay)
+            rep.case(key=key, nontrivial=True)
+            return
+        for (num, frags), (tag, src) in zip(lines, exp):
+            want = src.replace("\t", " " * tw)
+            nontrivial = nontrivial or len(frags) > 1
+            truncated = frags[-1].rstrip(" ").endswith("→")
+            joined = ""
+            for k, fr in enumerate(frags):
+                fr = fr.rstrip(" ")
+                last = k == len(frags) - 1
+                if k == 1 and len(frags) == 2 and frags[0].rstrip(" ").endswith(rsym):
+                    fr = re.sub(r"^ *" + re.escape(psym), "", fr)
+                if not last:
+                    fr = fr[:-len(lsym)]
+                joined += fr
+            unfit = lw >= 2 and too_wide(want, lw)
+            # progress: a row that ends in a wrap symbol carries at least one cluster of the line
+            empties = [k for k, fr in enumerate(frags[:-1]) if fr.rstrip(" ")[:-len(lsym)] == ""]
+            if empties and want.strip(" "):
+                viol(rep, "sbs:empty-wrapped-row" + (":cluster-wider-than-text-width-minus-symbol" if unfit else ""),
+                     f"line {num}: row {empties[0]} holds only the wrap symbol", replay)
+                rep.case(key=key, nontrivial=True)
+                return
+            if unfit:
+                # a cluster that cannot stand next to the wrap symbol in this panel: the statement
+                # cannot hold for this line by construction; only termination, geometry and
+                # progress are required
+                rep.count("binary:line-with-unfit-cluster")
+                continue
+            if truncated:
+                got = joined[:-1]
+                limit_hit = emax > 0 and len(frags) >= emax
+                if not limit_hit:
+                    viol(rep, "sbs:truncated-before-wrap-limit" + (":cluster-wider-than-text-width-minus-symbol" if unfit else ""),
+                         f"line {num} is cut (→) after {len(frags)} rows, limit {emax or 'none'}", replay)
+                    rep.case(key=key, nontrivial=True)
+                    return
+                # what precedes the mark is a prefix of the line; the cut may have replaced the
+                # first half of a wide character by a blank
+                g2 = got.rstrip(" ")
+                ok = want.startswith(got) or want.startswith(g2) or (got.endswith(" ") and want.startswith(got[:-1]))
+            else:
+                j = joined.rstrip(" ")
+                ok = j == want.rstrip(" ") or (want.startswith(j) and seg.width(want[len(j):].rstrip(" ")) == 0)
+            if not ok:
+                cls = ""
+                if unfit:
+                    cls = ":cluster-wider-than-text-width-minus-symbol"
+                elif truncated and has_wide:
+                    cls = ":truncated-row-with-wide-cluster"
+                viol(rep, "sbs:line-not-reproduced" + cls,
+                     f"line {num} side {'LR'[side]}: fragments {frags!r} do not give back {want!r}", replay)
+                rep.case(key=key, nontrivial=True)
+                return
+    # ---- unchanged lines are on both sides of the same row
+    ctx_nums = [(o + sum(1 for t, _ in body[:k] if t in " -"), n + sum(1 for t, _ in body[:k] if t in " +"))
+                for o, n, body in case["hunks"] for k, (t, _) in enumerate(body) if t == " "]
+    both = [(int(i0), int(i2)) for i0, _, i2, _ in rowinfo if i0 and i2]
+    for pair in ctx_nums:
+        if pair not in both:
+            viol(rep, "sbs:context-line-not-on-one-row", f"unchanged line {pair} is not on both sides of one row", replay)
+            rep.case(key=key, nontrivial=True)
+            return
+    rep.case(key=key, nontrivial=nontrivial,
+             sample=dict(op="delta -s", width=width, wrap_max_lines=case["wrap_max_lines"], rows=rows[:6]) if nontrivial else None)
+    rep.count("binary:" + ("wrapped" if nontrivial else "unwrapped"))
 
 
 # ------------------------------------------------------------------ entry points
@@ -311,13 +1022,72 @@ def part_wrap_line(ctx, rep, hook, mdl, seg):
 def run(ctx, rep):
     rep.rule = ("wrap.line: every line of <=N clusters over widths {0,1,2} x every section split x newline "
                 "placement, line widths 0..8, limits {unlimited,0,1,2,5}; random lines up to 90 clusters with "
-                "CJK/emoji-ZWJ/combining/zero-width/tab clusters; non-trivial = at least 2 output rows; "
-                "distinct by request text")
+                "CJK/emoji-ZWJ/combining/zero-width/tab clusters; wrap.block: random alignments (8% malformed) over "
+                "0-3 lines per side with independent syntax/diff sectionings; truncate/pad_panel: random painted "
+                "strings x widths around the cut; binary: generated two-way diffs x --width 12..140 (even/odd) x "
+                "wrap limits x fill methods x symbols x markers x tab widths. Non-trivial = at least 2 output rows "
+                "(wrap), a cut (truncate), an odd width (panels), a wrapped line (binary); distinct by request text")
     hook = limited_hook(ctx)
     mdl = ctx.model("drv_wrap") if ctx.drivers_ok else None
     seg = Seg(hook)
+    nl = seg.one("a\n")
+    if nl[-1] != ("\n", 0):
+        viol(rep, "domain:newline-width", "the newline cluster does not have display width 0 (NlZero)", dict(got=nl))
     part_wrap_line(ctx, rep, hook, mdl, seg)
+    part_block(ctx, rep, hook, mdl, seg)
+    part_truncate(ctx, rep, hook, mdl, seg)
+    part_panels(ctx, rep, hook, mdl)
+    part_binary(ctx, rep, seg)
+    rep.extra_trusted += ["unicode-segmentation / unicode-width (clusters and widths are taken from the implementation: text.graphemes)",
+                          "ANSI element iterator (items of a painted line are taken from the implementation: wrap.ansi_items)",
+                          "line-number gutters, superimposition and painting of sections (C05, C03, C09)"]
+    rep.assumptions += ["a newline cluster has display width 0 (checked on every run)",
+                        "display width is additive over clusters (requests where it is not are refused by the hook and counted as skipped-domain)",
+                        "wrap symbols are one cluster of display width 1 (what delta's option check intends; width 0/2 symbols are exercised in the correspondence only)"]
 
 
 def replay(ctx, rep, obj):
-    run(ctx, rep)
+    """Re-run exactly the recorded case against the current tree."""
+    case = obj.get("case", {})
+    hook = limited_hook(ctx)
+    mdl = ctx.model("drv_wrap") if ctx.drivers_ok else None
+    seg = Seg(hook)
+    op = case.get("op")
+    rep.rule = "replay of one recorded case"
+    if op == "delta --side-by-side":
+        rc, out, err = limited_run_delta(ctx, case["args"], case["diff"].encode("utf-8"), 15)
+        rows = []
+        if rc == 0:
+            rows = [r for r in ANSI_RE.sub("", out.decode("utf-8", "replace")).split("\n") if DELIM in r]
+        seg.many(rows)
+        hunks = hunks_of(case["diff"])
+        a = case["args"]
+        syms = DEFAULT_SYMS
+        if "--wrap-left-symbol" in a:
+            syms = (a[a.index("--wrap-left-symbol") + 1], a[a.index("--wrap-right-symbol") + 1],
+                    a[a.index("--wrap-right-prefix-symbol") + 1])
+        c2 = dict(op=op, diff=case["diff"], hunks=hunks, ext="?", kind="zw" if ZW in case["diff"] else "mixed",
+                  width=case["width"], wrap_max_lines=a[a.index("--wrap-max-lines") + 1], extra=a, syms=syms,
+                  markers="--keep-plus-minus-markers" in a, args=a)
+        oracle_binary(ctx, rep, seg, c2, rc, err.decode("utf-8", "replace"), rows)
+    elif "request" in case:
+        req = case["request"]
+        m = mdl.ask([req])[0] if mdl else None
+        if m == "HANG":
+            got = confirm_hang(ctx, rep, req, case)
+            rep.corr_case(op, not got.startswith("ok"), dict(case, impl=got, model=m))
+            if not got.startswith("ok"):
+                viol(rep, "hang:wrap_line:no-progress", "wrap_line never terminates: " + got[:60], dict(case, got=got))
+            return
+        a = hook.ask([req], timeout=30)[0]
+        rep.case(key=req, nontrivial=True, sample=dict(request=req, impl=a, model=m))
+        if m is not None:
+            rep.corr_case(op, same(a, m), dict(case, impl=a, model=m))
+        if op == "wrap.line":
+            oracle_wrap_line(rep, seg, case, a)
+        elif op == "wrap.block" and a.startswith("ok"):
+            oracle_block(rep, case, a, req)
+        elif a.startswith(("PANIC", "DIED")):
+            viol(rep, "panic:" + str(op), a[:80], dict(case, got=a))
+    else:
+        run(ctx, rep)
